@@ -356,4 +356,286 @@ example : (access exampleWorld { composePath := "P/compose".toList } "images").2
     = .ok ⟨0, "images", "P/compose/metadata/image-manifest.json".toList, "doc".toList⟩ := by rfl
 example : (access exampleWorld { composePath := "P/compose".toList } "rpms").2 = .error (.runtime "P/compose".toList) := by rfl
 
+
+
+/-! ## remote locations -/
+
+/-- what the source says a URL is, in `_file_exists` and in `open_file_obj` (the same tuple), which exceptions of the fetch
+mean "absent", the shape of the two functions, and the mark that disables the legacy scan -/
+theorem C20_url_schemes :
+    Gen.urlSchemesExists = ["http://".toList, "https://".toList, "ftp://".toList]
+    ∧ Gen.urlSchemesOpen = Gen.urlSchemesExists
+    ∧ Gen.urlExistsCatches = ["URLError"]
+    ∧ Gen.urlExistsShape = true ∧ Gen.urlOpenShape = true
+    ∧ Gen.composeUrlMark = scheme := by decide
+
+theorem isPrefixOf_append_right {α} [BEq α] : ∀ (s a b : List α), s.isPrefixOf a = true → s.isPrefixOf (a ++ b) = true
+  | [], _, _, _ => by simp [List.isPrefixOf]
+  | _ :: _, [], _, h => by simp [List.isPrefixOf] at h
+  | x :: s, y :: a, b, h => by
+    simp only [List.isPrefixOf, List.cons_append, Bool.and_eq_true] at h ⊢
+    exact ⟨h.1, isPrefixOf_append_right s a b h.2⟩
+
+theorem isUrl_append (sch : List Str) (a b : Str) (h : isUrl sch a = true) : isUrl sch (a ++ b) = true := by
+  simp only [isUrl, List.any_eq_true] at h ⊢
+  obtain ⟨s, hs, hp⟩ := h
+  exact ⟨s, hs, isPrefixOf_append_right s a b hp⟩
+
+/-- `os.path.join(url, name)` for a relative name keeps the URL as a prefix: it is still a URL -/
+theorem isUrl_pathJoin (sch : List Str) (a b : Str) (hb : Str.startsWith b ['/'] = false) (h : isUrl sch a = true) :
+    isUrl sch (pathJoin a b) = true := by
+  unfold pathJoin
+  simp only [hb, Bool.false_eq_true, if_false]
+  split
+  · exact isUrl_append sch a b h
+  · exact isUrl_append sch a ('/' :: b) h
+
+theorem containsSub_of_prefix (nd : Str) : ∀ (s : Str), nd.isPrefixOf s = true → containsSub nd s = true
+  | [], h => by
+    cases nd with
+    | nil => rfl
+    | cons _ _ => simp [List.isPrefixOf] at h
+  | c :: cs, h => by simp [containsSub, h]
+
+theorem containsSub_nil : ∀ (t : Str), containsSub [] t = true
+  | [] => rfl
+  | _ :: _ => by simp [containsSub]
+
+theorem containsSub_mono (nd : Str) : ∀ (s t : Str), containsSub nd s = true → s.isPrefixOf t = true → containsSub nd t = true
+  | [], t, h, _ => by
+    have : nd = [] := by simpa [containsSub] using h
+    subst this; exact containsSub_nil t
+  | c :: cs, [], _, hp => by simp [List.isPrefixOf] at hp
+  | c :: cs, d :: ts, h, hp => by
+    simp only [containsSub, Bool.or_eq_true] at h ⊢
+    rcases h with h | h
+    · left
+      rw [List.isPrefixOf_iff_prefix] at h hp ⊢
+      exact h.trans hp
+    · right
+      simp only [List.isPrefixOf, Bool.and_eq_true] at hp
+      exact containsSub_mono nd cs ts h hp.2
+
+/-- every URL (as `_file_exists` sees it) contains the mark that `Compose.__init__` tests: both facts read from the source -/
+theorem C20_url_has_mark (cp : Str) (h : isUrl Gen.urlSchemesExists cp = true) : containsSub Gen.composeUrlMark cp = true := by
+  simp only [isUrl, List.any_eq_true] at h
+  obtain ⟨s, hs, hp⟩ := h
+  have hall : ∀ s ∈ Gen.urlSchemesExists, containsSub Gen.composeUrlMark s = true := by decide
+  exact containsSub_mono _ s cp (hall s hs) hp
+
+/-- `_file_exists` on a URL, with the except clause read from the source evaluated: a response means present, URLError
+means absent, every other exception propagates -/
+theorem C20_url_exists (w : World) (n : Net) (log : FLog) (p : Str) (h : isUrl Gen.urlSchemesExists p = true) :
+    existsU w n log p =
+      match n.fetch p (seen log p) with
+      | .ok _ => (log ++ [⟨p, true⟩], .ok true)
+      | .urlError => (log ++ [⟨p, false⟩], .ok false)
+      | .other e => (log ++ [⟨p, false⟩], .error e) := by
+  unfold existsU
+  simp only [h, if_true]
+  cases hf : n.fetch p (seen log p) with
+  | ok r => rfl
+  | urlError =>
+    have hc : ((fetchBases Fetch.urlError).any fun c => Gen.urlExistsCatches.contains c) = true := by decide
+    exact if_pos hc
+  | other e =>
+    have hc : ¬ ((fetchBases (Fetch.other e)).any fun c => Gen.urlExistsCatches.contains c) = true := by
+      cases e <;> decide
+    exact if_neg hc
+
+theorem isUrl_probe (cp : Str) (h : isUrl Gen.urlSchemesExists cp = true) :
+    isUrl Gen.urlSchemesExists (pathJoin (pathJoin cp Gen.composeSubdir) Gen.composeProbe) = true :=
+  isUrl_pathJoin _ _ _ (by decide) (isUrl_pathJoin _ _ _ (by decide) h)
+
+/-- `Compose.__init__` on a URL: one fetch, then a case distinction on its outcome; nothing else is consulted -/
+theorem resolveU_url (w : World) (n : Net) (cp : Str) (h : isUrl Gen.urlSchemesExists cp = true) :
+    resolveU w n cp =
+      match n.fetch (pathJoin (pathJoin cp Gen.composeSubdir) Gen.composeProbe) 0 with
+      | .ok _ => ([⟨pathJoin (pathJoin cp Gen.composeSubdir) Gen.composeProbe, true⟩], .ok (pathJoin cp Gen.composeSubdir))
+      | .urlError => ([⟨pathJoin (pathJoin cp Gen.composeSubdir) Gen.composeProbe, false⟩], .ok cp)
+      | .other e => ([⟨pathJoin (pathJoin cp Gen.composeSubdir) Gen.composeProbe, false⟩], .error e) := by
+  have hm := C20_url_has_mark cp h
+  unfold resolveU
+  simp only [C20_url_exists w n [] _ (isUrl_probe cp h), hm, Bool.not_true, Bool.false_and, Bool.false_eq_true, if_false]
+  have hs : seen [] (pathJoin (pathJoin cp Gen.composeSubdir) Gen.composeProbe) = 0 := rfl
+  rw [hs]
+  cases n.fetch (pathJoin (pathJoin cp Gen.composeSubdir) Gen.composeProbe) 0 <;> rfl
+
+/-- a URL location: exactly ONE fetch (the `compose/` probe), no local file-system access at all – the result is the
+same in every local world, whatever `listdir` would say – and only two outcomes: `<url>/compose` or the URL itself.
+A legacy version-named sub-directory is not discoverable over a URL. -/
+theorem C20_url_no_legacy_scan (w w' : World) (n : Net) (cp : Str) (h : isUrl Gen.urlSchemesExists cp = true) :
+    resolveU w n cp = resolveU w' n cp
+    ∧ (resolveU w n cp).1.length = 1
+    ∧ ∀ p, (resolveU w n cp).2 = .ok p → p = cp ∨ p = pathJoin cp Gen.composeSubdir := by
+  rw [resolveU_url w n cp h, resolveU_url w' n cp h]
+  cases n.fetch (pathJoin (pathJoin cp Gen.composeSubdir) Gen.composeProbe) 0 <;> simp
+
+/-- `compose/` wins over a URL whenever its `metadata/composeinfo.json` can be fetched, whatever else is served -/
+theorem C20_url_compose_preferred (w : World) (n : Net) (cp : Str) (r : Str) (h : isUrl Gen.urlSchemesExists cp = true)
+    (hf : n.fetch (pathJoin (pathJoin cp Gen.composeSubdir) Gen.composeProbe) 0 = .ok r) :
+    (resolveU w n cp).2 = .ok (pathJoin cp Gen.composeSubdir) := by
+  rw [resolveU_url w n cp h, hf]
+
+/-- …and when that fetch fails with URLError (HTTP 404, refused, unknown host) the URL itself is the compose path -/
+theorem C20_url_direct (w : World) (n : Net) (cp : Str) (h : isUrl Gen.urlSchemesExists cp = true)
+    (hf : n.fetch (pathJoin (pathJoin cp Gen.composeSubdir) Gen.composeProbe) 0 = .urlError) :
+    (resolveU w n cp).2 = .ok cp := by
+  rw [resolveU_url w n cp h, hf]
+
+/-- any OTHER failure of that fetch (socket timeout, `http.client` exception, ValueError for a malformed URL) leaves
+the CONSTRUCTOR as it is: not "absent", not RuntimeError -/
+theorem C20_url_probe_error_propagates (w : World) (n : Net) (cp : Str) (e : Err) (h : isUrl Gen.urlSchemesExists cp = true)
+    (hf : n.fetch (pathJoin (pathJoin cp Gen.composeSubdir) Gen.composeProbe) 0 = .other e) :
+    (resolveU w n cp).2 = .error e := by
+  rw [resolveU_url w n cp h, hf]
+
+/-- trailing slash on a URL: the same URLs are fetched and every path built from the result is the same string
+(`os.path.join` adds no second slash).  `http://h/c//` is a different matter: `…//compose` is another URL, and what a
+server makes of it is the world's business. -/
+theorem C20_url_slash (w : World) (n : Net) (cp : Str) (h : isUrl Gen.urlSchemesExists cp = true)
+    (hns : Str.endsWith cp ['/'] = false) (rel : Str) :
+    (resolveU w n (cp ++ ['/'])).1 = (resolveU w n cp).1
+    ∧ (resolveU w n (cp ++ ['/'])).2.map (fun p => pathJoin p rel) = (resolveU w n cp).2.map (fun p => pathJoin p rel) := by
+  have hne : cp ≠ [] := by
+    intro h0; subst h0; revert h; decide
+  have hj : ∀ x, pathJoin (cp ++ ['/']) x = pathJoin cp x := fun x => pathJoin_slash cp x hne hns
+  rw [resolveU_url w n cp h, resolveU_url w n _ (isUrl_append _ cp ['/'] h)]
+  simp only [hj]
+  cases n.fetch (pathJoin (pathJoin cp Gen.composeSubdir) Gen.composeProbe) 0 <;> simp [Except.map, hj]
+
+
+
+/-! ### accessors over a URL -/
+
+/-- **Loaded once, then reused** over a URL: an access of a cached kind returns the cached object whatever the net has
+become, performs no fetch and no load (the state, fetch log included, is unchanged) -/
+theorem C20_url_cached (w : World) (n : Net) (s : UState) (k : Kind) (o : Obj) (hc : s.cache k = some o) :
+    accessU w n s k = (s, .ok o) := by
+  simp [accessU, hc]
+
+/-- candidate names over a URL are tried in the order of the source, exactly as locally: the first one that can be
+fetched is used; the earlier ones were fetched (URLError) before it, and nothing after it is fetched -/
+theorem C20_url_find_first (w : World) (n : Net) (hst : n.stationary) (p : Str) (hp : isUrl Gen.urlSchemesExists p = true)
+    (r : Str) (c : Str) (post : List Str) :
+    ∀ (pre : List Str) (log : FLog), (∀ x ∈ pre ++ [c], Str.startsWith x ['/'] = false) →
+      (∀ x ∈ pre, n.fetch (pathJoin p x) 0 = .urlError) → n.fetch (pathJoin p c) 0 = .ok r →
+      findU w n p log (pre ++ c :: post)
+        = (log ++ pre.map (fun x => ⟨pathJoin p x, false⟩) ++ [⟨pathJoin p c, true⟩], .ok (pathJoin p c)) := by
+  intro pre
+  induction pre with
+  | nil =>
+    intro log hrel _ hc
+    have hu := isUrl_pathJoin _ p c (hrel c (by simp)) hp
+    simp only [List.nil_append, findU, C20_url_exists w n log _ hu, hst (pathJoin p c) (seen log (pathJoin p c)), hc, List.map_nil,
+      List.append_nil]
+  | cons x pre ih =>
+    intro log hrel hpre hc
+    have hu := isUrl_pathJoin _ p x (hrel x (by simp)) hp
+    simp only [List.cons_append, findU, C20_url_exists w n log _ hu, hst (pathJoin p x) (seen log (pathJoin p x)), hpre x (by simp)]
+    rw [ih _ (fun y hy => hrel y (by simp only [List.cons_append, List.mem_cons]; exact Or.inr hy)) (fun y hy => hpre y (by simp [hy])) hc]
+    simp
+
+/-- the candidate names are the same as locally and relative -/
+theorem C20_url_names :
+    (∀ k ∈ ["info", "images", "rpms", "modules"], ∀ x ∈ candidates k, Str.startsWith x ['/'] = false)
+    ∧ candidates "images" = ["metadata/images.json".toList, "metadata/image-manifest.json".toList]
+    ∧ candidates "rpms" = ["metadata/rpms.json".toList, "metadata/rpm-manifest.json".toList] := by decide
+
+/-- no candidate can be fetched (URLError each): RuntimeError naming the resolved location; every candidate was tried
+once, in order; nothing is loaded or cached -/
+theorem C20_url_find_none (w : World) (n : Net) (hst : n.stationary) (p : Str) (hp : isUrl Gen.urlSchemesExists p = true) :
+    ∀ (cs : List Str) (log : FLog), (∀ x ∈ cs, Str.startsWith x ['/'] = false) → (∀ x ∈ cs, n.fetch (pathJoin p x) 0 = .urlError) →
+      findU w n p log cs = (log ++ cs.map (fun x => ⟨pathJoin p x, false⟩), .error (.runtime p)) := by
+  intro cs
+  induction cs with
+  | nil => intro log _ _; simp [findU]
+  | cons x cs ih =>
+    intro log hrel hall
+    have hu := isUrl_pathJoin _ p x (hrel x (by simp)) hp
+    simp only [findU, C20_url_exists w n log _ hu, hst (pathJoin p x) (seen log (pathJoin p x)), hall x (by simp)]
+    rw [ih _ (fun y hy => hrel y (by simp [hy])) (fun y hy => hall y (by simp [hy]))]
+    simp
+
+theorem C20_url_errors_missing (w : World) (n : Net) (hst : n.stationary) (s : UState) (k : Kind) (hc : s.cache k = none)
+    (hp : isUrl Gen.urlSchemesExists s.composePath = true) (hrel : ∀ x ∈ candidates k, Str.startsWith x ['/'] = false)
+    (h : ∀ x ∈ candidates k, n.fetch (pathJoin s.composePath x) 0 = .urlError) :
+    (accessU w n s k).2 = .error (.runtime s.composePath) ∧ (accessU w n s k).1.cache = s.cache
+    ∧ (accessU w n s k).1.loads = s.loads := by
+  simp [accessU, hc, C20_url_find_none w n hst s.composePath hp (candidates k) s.fetches hrel h]
+
+/-- the file can be fetched but does not load – the fetch of the load itself fails with a ValueError, or parsing /
+deserialising the response raises a class of the except clause (undecodable bytes, JSON syntax, wrong shape):
+RuntimeError naming the URL of the file; nothing is cached; the response is NOT closed by the library -/
+theorem C20_url_errors_undecodable (w : World) (n : Net) (s : UState) (k : Kind) (l : FLog) (path resp : Str) (e : Err)
+    (hc : s.cache k = none) (hf : findU w n s.composePath s.fetches (candidates k) = (l, .ok path))
+    (hu : isUrl Gen.urlSchemesOpen path = true) (hr : n.fetch path (seen l path) = .ok resp) (hl : n.parse k resp = .error e)
+    (he : wrapped e = true) :
+    (accessU w n s k).2 = .error (.runtime path) ∧ (accessU w n s k).1.cache = s.cache
+    ∧ (accessU w n s k).1.fetches = l ++ [⟨path, false⟩] := by
+  simp [accessU, hc, hf, loadU, hu, hr, hl, he]
+
+/-- a fetch failure other than URLError while looking for the file (timeout, protocol error) leaves the accessor as it
+is – it is neither "missing" nor RuntimeError; a URLError of the LOAD's own fetch (the file vanished between probe and
+load) escapes as well: URLError is an OSError, not in the except clause -/
+theorem C20_url_propagates_partial (w : World) (n : Net) (s : UState) (k : Kind) (hc : s.cache k = none) :
+    (∀ l e, findU w n s.composePath s.fetches (candidates k) = (l, .error (.other e)) → (accessU w n s k).2 = .error (.other e))
+    ∧ (∀ l path, findU w n s.composePath s.fetches (candidates k) = (l, .ok path) → isUrl Gen.urlSchemesOpen path = true →
+        n.fetch path (seen l path) = .urlError → (accessU w n s k).2 = .error (.other .other)) := by
+  refine ⟨fun l e hf => by simp [accessU, hc, hf], fun l path hf hu hr => ?_⟩
+  have : wrapped Err.other = false := by decide
+  simp [accessU, hc, hf, loadU, hu, hr, fetchErr, this]
+
+/-- each accessor equals loading that URL directly: a successful first access returns the text that `cls().load(url)`
+gives at that moment, for the URL `_find_metadata_file` chose; one load is logged -/
+theorem C20_url_equals_direct_load (w : World) (n : Net) (s s1 : UState) (k : Kind) (o : Obj)
+    (hc : s.cache k = none) (h : accessU w n s k = (s1, .ok o)) :
+    ∃ l, (findU w n s.composePath s.fetches (candidates k)) = (l, .ok o.path)
+      ∧ (loadU w n l k o.path).2 = .ok o.text ∧ o.kind = k ∧ s1.loads = s.loads ++ [(k, o.path)]
+      ∧ s1.fetches = (loadU w n l k o.path).1 := by
+  unfold accessU at h
+  simp only [hc] at h
+  rcases hf : findU w n s.composePath s.fetches (candidates k) with ⟨l, r⟩
+  cases r with
+  | error e => simp [hf] at h
+  | ok path =>
+    simp only [hf] at h
+    rcases hl : loadU w n l k path with ⟨l2, r2⟩
+    cases r2 with
+    | error e => simp only [hl] at h; split at h <;> simp at h
+    | ok text =>
+      simp only [hl] at h
+      split at h <;>
+      · simp only [Prod.mk.injEq, Except.ok.injEq] at h
+        obtain ⟨h1, h2⟩ := h
+        subst h2; subst h1
+        exact ⟨l, rfl, by simp [hl], rfl, rfl, by simp [hl]⟩
+
+/-- …which for a URL means: the response of ONE fetch of that URL, parsed as the accessor's kind, closed afterwards -/
+theorem C20_url_load (w : World) (n : Net) (l : FLog) (k : Kind) (path resp text : Str) (hu : isUrl Gen.urlSchemesOpen path = true)
+    (hr : n.fetch path (seen l path) = .ok resp) (hp : n.parse k resp = .ok text) :
+    loadU w n l k path = (l ++ [⟨path, true⟩], .ok text) := by
+  simp [loadU, hu, hr, hp]
+
+/-! ### non-vacuity: a concrete net (both layouts served; the manifest only under its legacy name; rpms undecodable) -/
+def exampleNet : Net :=
+  Net.ofTable
+    [("http://h/c/compose/metadata/composeinfo.json".toList, [.ok "R1".toList]),
+     ("http://h/c/metadata/composeinfo.json".toList, [.ok "R0".toList]),
+     ("http://h/c/compose/metadata/image-manifest.json".toList, [.ok "R2".toList]),
+     ("http://h/c/compose/metadata/rpms.json".toList, [.ok "R3".toList]),
+     ("http://h/c/compose/metadata/modules.json".toList, [.other .other])]
+    [(("info", "R1".toList), .ok "doc1".toList), (("images", "R2".toList), .ok "doc2".toList), (("rpms", "R3".toList), .error .valueError)]
+
+/-- the same net frozen at its first answers is stationary (hypothesis `hst` of the theorems above) -/
+example : ({ fetch := fun u _ => exampleNet.fetch u 0, parse := exampleNet.parse } : Net).stationary := fun _ _ => rfl
+example : isUrl Gen.urlSchemesExists "http://h/c".toList = true := by decide
+example : (resolveU World.empty exampleNet "http://h/c/".toList).2 = .ok "http://h/c/compose".toList := by rfl
+example : (accessU World.empty exampleNet { composePath := "http://h/c/compose".toList } "images").2
+    = .ok ⟨0, "images", "http://h/c/compose/metadata/image-manifest.json".toList, "doc2".toList⟩ := by rfl
+example : (accessU World.empty exampleNet { composePath := "http://h/c/compose".toList } "rpms").2
+    = .error (.runtime "http://h/c/compose/metadata/rpms.json".toList) := by rfl
+example : (accessU World.empty exampleNet { composePath := "http://h/c/compose".toList } "modules").2 = .error (.other .other) := by rfl
+example : (accessU World.empty exampleNet { composePath := "http://h/c".toList } "images").2 = .error (.runtime "http://h/c".toList) := by rfl
+
 end PM
